@@ -9,7 +9,7 @@ from .base import gen_program, viol, shrink_program
 ID = "C05"
 LEVEL = "exploration"
 TIERS = {"quick": {"cases": 2400, "wall": 100, "min_nontrivial": 1200},
-         "thorough": {"cases": 60000, "wall": 1800, "min_nontrivial": 30000}}
+         "thorough": {"cases": 60000, "wall": 1800, "min_nontrivial": 12000}}
 RULE = ("generator -> valid program P rendered in fixed form (labels anywhere in columns 1-5, continuation mark from "
         "'&+$*123456789xX.#', wrap column in {40,50,60,72} with extra random breaks, statements cut at arbitrary "
         "characters incl. inside names and character literals, comment lines C/c/*/! between statements and between "
